@@ -1008,11 +1008,23 @@ func checkDecodedValuesArePieces(p *core.Program, r *core.Report, dec *ssa.Funct
 	r.Floor("R11.5", "token value stores in the decoder", n, 3)
 	// and they are read back unchanged: Token's accessors return the stored fields
 	nAcc := 0
+	// the accessors the round trip goes through: those the encoder, Kind() and its helpers,
+	// and Password.String() call
+	used := map[*ssa.Function]bool{}
+	var roots []*ssa.Function
+	for _, f := range []*ssa.Function{p.Method("Tokens", "MakeIndices"), p.Method("Tokens", "Kind"), p.Method("Password", "String")} {
+		if f != nil {
+			roots = append(roots, f)
+		}
+	}
+	for f := range p.ReachableFrom(roots...) {
+		used[f] = true
+	}
 	for _, fn := range p.LibFuncs() {
 		if fn.Signature.Recv() == nil || fn.Parent() != nil || core.NamedOf(fn.Signature.Recv().Type()) != core.ModulePath+".Token" {
 			continue
 		}
-		if fn.Signature.Params().Len() != 0 || fn.Signature.Results().Len() != 1 || !ast.IsExported(fn.Name()) {
+		if fn.Signature.Params().Len() != 0 || fn.Signature.Results().Len() != 1 || !ast.IsExported(fn.Name()) || !used[fn] {
 			continue
 		}
 		nAcc++
